@@ -591,6 +591,11 @@ class Mx:
     def normalize(s):
         s.assign(s.normalized())
 
+    def prod(s):
+        acc = D(1)
+        for a in s.flat():
+            acc = acc * a
+        return acc
     def sum(s):
         acc = D(0)
         for a in s.flat():
